@@ -205,11 +205,14 @@ def check_faults_are_recorded(ck, prog, tier):
             inner_gaps = [g for g in GAP_EVENTS[n0:] if g[0] != 'loop']
     except AnalysisError as exc:
         ck.saw('faults_recorded_rule', 'skipped: %s' % str(exc)[:200])
-        return
+        ck.extra.setdefault('d7_undecided', []).append('exchange analysis: %s' % str(exc)[:300])
+        return check_handshake_faults_are_recorded(ck, prog, tier)
     if inner_gaps:
-        ck.saw('faults_recorded_rule', 'skipped: the exchange analysis met constructs it does '
-               'not model (%s)' % '; '.join('%s %s' % g[:2] for g in inner_gaps[:3]))
-        return
+        why = 'the exchange analysis met constructs it does not model (%s)' % '; '.join(
+            '%s %s' % g[:2] for g in inner_gaps[:3])
+        ck.saw('faults_recorded_rule', 'skipped: ' + why)
+        ck.extra.setdefault('d7_undecided', []).append(why)
+        return check_handshake_faults_are_recorded(ck, prog, tier)
     taken = ('C05-D4-success-table', 'C05-D6-failure-latched', 'C05-D6-failure-reported',
              'C05-D5-containment',
              'C05-D2-first-line-is-the-reply')
@@ -249,10 +252,13 @@ def check_handshake_faults_are_recorded(ck, prog, tier):
             inner_gaps = [g for g in GAP_EVENTS[n0:] if g[0] != 'loop']
     except AnalysisError as exc:
         ck.saw('handshake_faults_rule', 'skipped: %s' % str(exc)[:200])
+        ck.extra.setdefault('d7_undecided', []).append('connect analysis: %s' % str(exc)[:300])
         return
     if inner_gaps:
-        ck.saw('handshake_faults_rule', 'skipped: the connect analysis met constructs it does '
-               'not model (%s)' % '; '.join('%s %s' % g[:2] for g in inner_gaps[:3]))
+        why = 'the connect analysis met constructs it does not model (%s)' % '; '.join(
+            '%s %s' % g[:2] for g in inner_gaps[:3])
+        ck.saw('handshake_faults_rule', 'skipped: ' + why)
+        ck.extra.setdefault('d7_undecided', []).append(why)
         return
     taken = ('C15-D2-verified', 'C15-D2-supported', 'C15-D2-error-kept',
              'C15-D3-failure-recorded')
@@ -384,6 +390,12 @@ def run(ck, prog, tier):
     for r in requests[:12]:
         ck.sample({'request_method': r})
     check_faults_are_recorded(ck, prog, tier)
+    if ck.extra.get('d7_undecided') and not ck.violations:
+        # the latch presupposes that the fault is recorded; when that part cannot be analysed on
+        # this tree the claim "every fault of the five kinds blocks later requests" is not
+        # decided - say so instead of passing on the latch rules alone
+        raise AnalysisError('C04-D7 (a failing exchange / handshake ends with an error recorded) '
+                            'is not decided on this tree: %s' % ck.extra['d7_undecided'][0])
     if tier == 'thorough':
         # the base class on its own (what a user of ebb3_serial.EBB3 gets), and the inlined route
         analyse(ck, prog, use_base=True)
